@@ -1120,6 +1120,49 @@ def check_custom(fname, freqs):
     return None
 
 
+# the model class each module name of the shipped package stands for (what make_model("iba", "dort"), make_soil("soil_wegmuller", ...),
+# make_snowpack(..., "sticky_hard_spheres") ... have always built); modules added later are not listed and only checked generically
+SHIPPED_CLASSES = {
+    "emmodel": {
+        "dmrt_qca_shortrange": "DMRT_QCA_ShortRange", "dmrt_qcacp_shortrange": "DMRT_QCACP_ShortRange",
+        "iba": "IBA", "iba_maxwell_garnett": "IBA_MaxwellGarnett", "iba_original": "IBA_original",
+        "nonscattering": "NonScattering", "prescribed_kskaeps": "Prescribed_KsKaEps", "rayleigh": "Rayleigh",
+        "sce_common": "SCEBase", "sce_rechtsman08": "SCER08", "sce_torquato21": "SCETK21",
+        "sce_torquato21_shortrange": "SCETK21_ShortRange", "sft_rayleigh": "SFT_Rayleigh",
+        "symsce_torquato21": "SymSCETK21", "symsce_torquato21_shortrange": "SymSCETK21_ShortRange",
+    },
+    "rtsolver": {
+        "dort": "DORT", "dort_nonormalization": "DORT", "nadir_lrm_altimetry": "NadirLRMAltimetry",
+        "waveform_model": "Brown1977",
+    },
+    "interface": {
+        "coherent_flat": "CoherentFlat", "flat": "Flat", "geometrical_optics": "GeometricalOptics",
+        "geometrical_optics_backscatter": "GeometricalOpticsBackscatter", "iem_fung92": "IEM_Fung92",
+        "iem_fung92_brogioni10": "IEM_Fung92_Briogoni10", "radar_calibration_sphere": "RadarCalibrationSphere",
+        "transparent": "Transparent",
+    },
+    "substrate": {
+        "flat": "Flat", "geometrical_optics": "GeometricalOptics",
+        "geometrical_optics_backscatter": "GeometricalOpticsBackscatter", "iem_fung92": "IEM_Fung92",
+        "iem_fung92_brogioni10": "IEM_Fung92_Briogoni10", "radar_calibration_sphere": "RadarCalibrationSphere",
+        "reflector": "Reflector", "reflector_backscatter": "ReflectorBackscatter",
+        "rough_choudhury79": "ChoudhuryReflectivity", "soil_qnh": "SoilQNH", "soil_wegmuller": "SoilWegmuller",
+        "transparent": "Transparent",
+    },
+    "microstructure_model": {
+        "autocorrelation": "Autocorrelation", "exponential": "Exponential",
+        "gaussian_random_field": "GaussianRandomField", "homogeneous": "Homogeneous",
+        "independent_sphere": "IndependentSphere", "sampled_autocorrelation": "SampledAutocorrelation",
+        "sticky_hard_spheres": "StickyHardSpheres", "teubner_strey": "TeubnerStrey",
+        "unified_autocorrelation": "UnifiedAutocorrelation", "unified_scaled_exponential": "UnifiedScaledExponential",
+        "unified_sticky_hard_spheres": "UnifiedStickyHardSpheres", "unified_teubner_strey": "UnifiedTeubnerStrey",
+    },
+    "atmosphere": {
+        "simple_atmosphere": "SimpleAtmosphere", "simple_isotropic_atmosphere": "SimpleIsotropicAtmosphere",
+    },
+}
+
+
 def check_plugin(d, mname):
     from smrt.core import plugin
     plugin.import_class.cache_clear()
@@ -1133,6 +1176,9 @@ def check_plugin(d, mname):
     if any(need(c) for c in own) and not need(cls):
         return ("plugin:" + d, f"import_class({d!r}, {mname!r}) returns {cls.__name__}, which does not implement the {d} interface, although "
                 f"{[c.__name__ for c in own if need(c)]} defined in the module do", [c.__name__ for c in own if need(c)])
+    want = SHIPPED_CLASSES.get(d, {}).get(mname)
+    if want is not None and cls.__name__ != want and any(c.__name__ == want for c in own):
+        return ("plugin:own-class", f"import_class({d!r}, {mname!r}) returns {cls.__name__} although the module defines {want}, the class this name stands for", want)
     if cls.__module__ != mod.__name__:
         return ("plugin:foreign-class", f"import_class({d!r}, {mname!r}) returns {cls.__module__}.{cls.__name__}", "a class of the module")
     return None
